@@ -82,7 +82,7 @@ CHECKS = {
     "C12": (
         "fault_enumeration",
         "digest comparison at every checkpoint of a configuration lattice and a kill at every likelihood call (plus kill pairs) of short runs",
-        "(a) At every checkpoint of 17 (quick) / 34 (thorough) real runs (iteration- and time-triggered, checkpoint_on_training, rejection and flow phases, populated and empty pools, masks as list and ndarray, clustering, uniform_nball, inversion, INS variants with and without saved log_q) the live sampler is digested (iteration, live and nested points, integral state, insertion indices, history, pools, training counters, reparameterisation state, acceptance bookkeeping, weights, evaluation counter), the file just written is resumed into a second object with a fresh model and the digests are compared field by field (INS log_q bitwise when saved, float32 otherwise). (b) A short run of each sampler is killed at every likelihood call and at kill pairs on a lattice, resumed and completed; the C01/C03 monitors and the C05 oracle must hold and the evaluation counter must equal the checkpointed count plus the evaluations after the resume, at every checkpoint of every leg and at the end. The kill runs execute under a virtual clock (nessai's datetime.now() replaced: 1 s per evaluated point, 1e6 s of down time between legs, which also makes time-triggered checkpoints deterministic): the likelihood time and the sampling time at every checkpoint, after every resume and at the end must equal the harness's own ledger exactly - neither reset, nor counted twice, nor including the down time.",
+        "(a) At every checkpoint of 17 (quick) / 34 (thorough) real runs (iteration- and time-triggered, checkpoint_on_training, rejection and flow phases, populated and empty pools, masks as list and ndarray, clustering, uniform_nball, inversion, INS variants with and without saved log_q) the live sampler is digested (iteration, live and nested points, integral state, insertion indices, history, pools, training counters, reparameterisation state, acceptance bookkeeping, weights, evaluation counter), the file just written is resumed into a second object with a fresh model and the digests are compared field by field (INS log_q bitwise when saved, float32 otherwise). (b) A short run of each sampler is killed at every likelihood call and at kill pairs on a lattice, resumed and completed; the C01/C03 monitors and the C05 oracle must hold and the evaluation counter must equal the checkpointed count plus the evaluations after the resume, at every checkpoint of every leg and at the end. The kill runs execute under a virtual clock (nessai's datetime.now() replaced: 1 s per evaluated point, 1e6 s of down time between legs, which also makes time-triggered checkpoints deterministic): the likelihood time and the sampling time at every checkpoint, after every resume and at the end must equal the harness's own ledger exactly - neither reset, nor counted twice, nor including the down time. Kills are also placed right after the j-th checkpoint of a leg; a sampler that was itself restored must again write checkpoints that restore to what it is (every public plain-valued property of the sampler and its proposals is part of the digest). Real processes: killed with os._exit at the k-th likelihood call and resumed by a second interpreter with another hash seed, with the C01/C03 monitors running inside it (quick: a few kill points; thorough: a lattice of 40 per configuration).",
         "Kills are BaseExceptions raised from the user's likelihood. AugmentedFlowProposal excluded (known finding C09/C20).",
         "4/C12",
     ),
